@@ -116,4 +116,72 @@ theorem Limbs_map_range (f : Nat → Nat) (n : Nat) (hf : ∀ i, f i < B) : Limb
   obtain ⟨i, _, rfl⟩ := List.mem_map.mp hx
   exact hf i
 
+/-! ## mpz/lcm.c, the one-limb arm -/
+
+/-- value-level result of lcm.c:50-63 (label `one`) with the allocation: u * (vl / gcd (u, vl)) -/
+def Spec.lcmOne (r u : Mpz.Mpz) (vl : Nat) : Mpz.Mpz :=
+  let n := u.size.natAbs
+  let p := Mpir.mul_1 u.d (vl / Nat.gcd (val u.d) vl)
+  let n' := n + (if p.2 != 0 then 1 else 0)
+  ⟨(Mpz.grow r (n + 1)).alloc, (n' : Nat), (p.1 ++ [p.2]).take n'⟩
+
+theorem lcmOne_refines (s : St) (r u v : Nat) (hs : s.ok = true) (hr : OWF (s.h r)) (hu : OWF (s.h u)) (hv : OWF (s.h v))
+    (hv1 : 1 ≤ (s.h v).size.natAbs) :
+    Refines s (lcmOne 1 s r u v (s.h u).size.natAbs) r
+      (Spec.lcmOne (view (s.h r)) (view (s.h u)) ((view (s.h v)).d.headD junk)) := by
+  unfold lcmOne Spec.lcmOne
+  have G := MPZ_REALLOC_grown s r ((s.h u).size.natAbs + 1) hr
+  obtain ⟨ea, oka⟩ := grown_rd G u (s.h u).size.natAbs hu (Nat.le_refl _)
+  obtain ⟨ev, okv⟩ := grown_rd G v 1 hv hv1
+  have hul := view_d_length hu
+  have hvl := view_d_length hv
+  rw [List.take_of_length_le (by omega)] at ea
+  obtain ⟨x, xs, hd⟩ : ∃ x xs, (view (s.h v)).d = x :: xs := by
+    cases h : (view (s.h v)).d with
+    | nil => rw [h] at hvl; simp at hvl; omega
+    | cons x xs => exact ⟨x, xs, rfl⟩
+  have hx : x < B := view_limbs hv x (by rw [hd]; simp)
+  rw [hd] at ev
+  simp only [List.take_succ_cons, List.take_zero] at ev
+  have hm : x / Nat.gcd (val (view (s.h u)).d) x < B := Nat.lt_of_le_of_lt (Nat.div_le_self _ _) hx
+  obtain ⟨_, mc, ml, mn⟩ := Mpz.K.mul_1_val (view (s.h u)).d (x / Nat.gcd (val (view (s.h u)).d) x) (view_limbs hu) hm
+  have halloc : (Mpz.grow (view (s.h r)) ((s.h u).size.natAbs + 1)).alloc =
+    ((MPZ_REALLOC s r ((s.h u).size.natAbs + 1)).h r).buf.alloc := G.alloc.symm
+  have e1 : (view (s.h u)).size = (s.h u).size := rfl
+  simp only [e1, hd, List.headD_cons]
+  rw [halloc]
+  refine Refines.of_grown G ?_
+  simp only [St.load, add_zero_ptr, mpn_gcd_1, mpn_mul_1, ea, oka, ev, okv, List.headD_cons, chk_true]
+  have T := tail_carry (MPZ_REALLOC s r ((s.h u).size.natAbs + 1)) r
+    (Mpir.mul_1 (view (s.h u)).d (x / Nat.gcd (val (view (s.h u)).d) x)).1
+    (Mpir.mul_1 (view (s.h u)).d (x / Nat.gcd (val (view (s.h u)).d) x)).2
+    ((s.h u).size.natAbs + (if (Mpir.mul_1 (view (s.h u)).d (x / Nat.gcd (val (view (s.h u)).d) x)).2 != 0 then 1 else 0)) false true
+    (by rw [G.ok]; exact hs) rfl (G.bwf r hr.1) ml mc (by rw [mn, hul]; exact G.room) (by rw [mn, hul]; split <;> omega)
+  simp only [mn, hul, chk_true, sgn, Bool.false_eq_true, if_false] at T
+  exact T
+
+/-- the list-level result of the `one` arm is a well-formed mpz, and it is the least common multiple -/
+theorem Spec.lcmOne_spec (r u : Mpz.Mpz) (vl : Nat) (hr : 1 ≤ r.alloc) (hu : Mpz.WF u) (hu0 : u.size ≠ 0) (hvl : vl < B)
+    (hv0 : vl ≠ 0) :
+    Mpz.WF (Spec.lcmOne r u vl) ∧ Mpz.toInt (Spec.lcmOne r u vl) = (Nat.lcm (val u.d) vl : Nat) := by
+  have hg : 0 < Nat.gcd (val u.d) vl := Nat.gcd_pos_of_pos_right _ (Nat.pos_of_ne_zero hv0)
+  have hm0 : vl / Nat.gcd (val u.d) vl ≠ 0 :=
+    Nat.pos_iff_ne_zero.mp (Nat.div_pos (Nat.le_of_dvd (Nat.pos_of_ne_zero hv0) (Nat.gcd_dvd_right _ _)) hg)
+  have hm : vl / Nat.gcd (val u.d) vl < B := Nat.lt_of_le_of_lt (Nat.div_le_self _ _) hvl
+  have key : Spec.lcmOne r u vl = Mpz.mul_ui r ⟨u.alloc, (u.size.natAbs : Nat), u.d⟩ (vl / Nat.gcd (val u.d) vl) := by
+    have habs : ¬ |u.size| < 0 := not_lt.mpr (abs_nonneg _)
+    simp [Spec.lcmOne, Mpz.mul_ui, Mpz.mul_i, hm0, hu0, habs, Int.natAbs_abs, sgn]
+  have hWFa : Mpz.WF ⟨u.alloc, (u.size.natAbs : Nat), u.d⟩ := by
+    obtain ⟨a, b, c, d, e⟩ := hu
+    exact ⟨a, by simpa [Int.natAbs_abs] using b, by simpa [Int.natAbs_abs] using c, d, e⟩
+  obtain ⟨e2, e1⟩ := Mpz.mul_i_spec r ⟨u.alloc, (u.size.natAbs : Nat), u.d⟩ (vl / Nat.gcd (val u.d) vl) false hr hWFa hm
+  rw [key]
+  unfold Mpz.mul_ui
+  refine ⟨e2, ?_⟩
+  rw [e1]
+  have hl : val u.d * (vl / Nat.gcd (val u.d) vl) = Nat.lcm (val u.d) vl := by
+    unfold Nat.lcm; exact (Nat.mul_div_assoc _ (Nat.gcd_dvd_right _ _)).symm
+  rw [← hl]
+  simp [Mpz.toInt]
+
 end Mpir.AllocSafe5
